@@ -241,7 +241,7 @@ def step (st : St) (line : String) : St × String :=
   | "write" :: kind :: variant :: rest =>
     let kinds := ["str", "jstr", "json", "slite", "mini", "bytes", "rkyvs", "rkyvi"]
     let hasAux := kind == "slite" || kind == "mini" || kind == "rkyvs" || kind == "rkyvi"
-    if !kinds.contains kind || !["d", "ar", "r", "ao", "o", "sv"].contains variant then (st, "bad-op") else
+    if !kinds.contains kind || !["d", "ar", "r", "ao", "o", "sv", "arb", "rb", "aob", "ob"].contains variant then (st, "bad-op") else
     let payloads : Option (List Nat × List Nat) :=
       match rest, hasAux with
       | [h], false => (bytesOfHex h).map fun r => (r, [])
@@ -256,15 +256,16 @@ def step (st : St) (line : String) : St × String :=
       | none => (st, "bad-op")
       | some enc =>
         let hyd := st.srv.ctr.hyd
-        let (i, srv) := st.srv.nextId
         let key := st.writes.length
         let shared := variant == "sv"
-        let srv := if hyd then (if shared then srv.writeReady key i enc else srv.writeAsync key i enc) else srv
+        let blocking := variant == "arb" || variant == "rb" || variant == "aob" || variant == "ob"
+        -- resource.rs / once_resource.rs / shared.rs: draw an id, (defer the stream if blocking,) write if the flag is on
+        let (i, srv, _deferred) := st.srv.createCarrier blocking shared key enc
         let w : W := { id := i, kind := kind, direct := variant == "d", raw := raw, aux := aux, enc := enc,
                        reg := hyd, late := isDone srv || st.consumeStarted, consumed := false,
                        completed := hyd && shared, emitted := 0 }
         ({ st with srv := srv, writes := st.writes ++ [w], created := st.created ++ [Created.write key hyd] },
-         s!"w {key} {i} {if hyd then 1 else 0} enc={hexOfStr enc}")
+         s!"w {key} {i} {if hyd then 1 else 0} enc={hexOfStr enc} ## ok")
   | ["err", b, e, h] =>
     match b.toNat?, e.toNat?, strOfHex h with
     | some b, some e, some m =>
@@ -354,7 +355,7 @@ def step (st : St) (line : String) : St × String :=
     let kinds := ["str", "jstr", "json", "slite", "mini", "bytes", "rkyvs", "rkyvi"]
     let hasAux := kind == "slite" || kind == "mini" || kind == "rkyvs" || kind == "rkyvi"
     if (moment != "post" && moment != "csr") || !kinds.contains kind
-        || !["d", "ar", "r", "ao", "o", "sv"].contains variant then (st, "bad-op") else
+        || !["d", "ar", "r", "ao", "o", "sv", "arb", "rb", "aob", "ob"].contains variant then (st, "bad-op") else
     let payloads : Option (List Nat × List Nat) :=
       match rest, hasAux with
       | [h], false => (bytesOfHex h).map fun r => (r, [])
